@@ -65,6 +65,23 @@ def draws(P, rep, rule="RNG.draws"):
                 n += 1
                 eng = x["c"][1] if len(x["c"]) > 1 else None
                 roots = E.resolve(F, eng) if eng is not None else set()
+                if len(roots) == 1 and list(roots)[0][0] == "param" and P.d(F.key).get("k") == "Function":
+                    # a file-local helper that draws on an engine handed in by reference: judged at its call sites
+                    from .pure import is_random_model as _irm
+                    pidx = list(roots)[0][1]
+                    sites_ok = True
+                    sites = P.callsites.get(F.key, [])
+                    for G, call in sites:
+                        if G.file != F.file or not _irm(G) or 1 + pidx >= len(call["c"]):
+                            sites_ok = False
+                            continue
+                        aroots = E.resolve(G, call["c"][1 + pidx])
+                        if aroots != {EF.RNG}:
+                            sites_ok = False
+                    if sites and sites_ok:
+                        for G, call in sites:
+                            callers.setdefault(G.qn, []).append(x)
+                        continue
                 if roots != {EF.RNG}:
                     rep.violation(rule, "%s draws from %s" % (F.qn, norm.render(P, eng)), F.nloc(x), F.qn, norm.render(P, x),
                                   "engine is not the world's seeded engine", key="%s|%s|engine" % (rule, F.qn),
